@@ -31,7 +31,7 @@ use crate::{
 // ---------------------------------------------------------------------------------------------------------------
 // (a) op histories, Ristretto (the instantiation that owns the process-wide cells)
 
-pub const OPS: [&str; 18] = [
+pub const OPS: [&str; 19] = [
     "params(2,1)",
     "params(2,2)",
     "params(4,1)",
@@ -50,6 +50,7 @@ pub const OPS: [&str; 18] = [
     "recover6",
     "recover6-other-seed",
     "params(2,16)",
+    "prove-refused-promise",
 ];
 
 fn digest(parts: &[&[u8]]) -> Vec<u8> {
@@ -143,6 +144,20 @@ fn run_op<P: G>(op: &str, kept: &mut Vec<RangeParameters<P>>) -> Vec<u8> {
             let witness = witness_for(&bad).unwrap();
             let mut t = CTX_A.transcript();
             match P::prove(&mut t, &built.statement, &witness, &mut HRng::chacha(1)) {
+                Ok(p) => [b"PROOF:".to_vec(), P::to_bytes(&p)].concat(),
+                Err(e) => format!("ERR:{}", crate::api::err_name(&e)).into_bytes(),
+            }
+        },
+        "prove-refused-promise" => {
+            // a proving attempt that is refused late (promise above the value): what it leaves behind on this thread or in
+            // the process must not reach later calls
+            let cfg = Cfg::new(4, 1, 1, 2);
+            let mut wit = Wit::default_for(&cfg);
+            wit.values[0] = 3;
+            wit.promises[0] = Some(9);
+            let built = build::<P>(&cfg, &wit).honest();
+            let mut t = CTX_A.transcript();
+            match P::prove(&mut t, &built.statement, &built.witness, &mut HRng::chacha(1)) {
                 Ok(p) => [b"PROOF:".to_vec(), P::to_bytes(&p)].concat(),
                 Err(e) => format!("ERR:{}", crate::api::err_name(&e)).into_bytes(),
             }
@@ -707,7 +722,7 @@ fn source_scan() -> Value {
 }
 
 pub fn run(rep: &mut Report) {
-    rep.rule = "(a) every sequence over the 18-op alphabet {build params for 16 parties, degree-6 seeded prove, recovery (right / other seed) from a degree-6 proof made elsewhere, build params x3, prove A/B, prove with a witness that does not open the commitment, verify valid/invalid, seeded recover, batch of two, batch abandoned at \
+    rep.rule = "(a) every sequence over the 19-op alphabet {a prove refused for its promise, build params for 16 parties, degree-6 seeded prove, recovery (right / other seed) from a degree-6 proof made elsewhere, build params x3, prove A/B, prove with a witness that does not open the commitment, verify valid/invalid, seeded recover, batch of two, batch abandoned at \
                 its second member (wrong round count / undecodable point), pedersen gens, drop-all} of length <= 3 (thorough 4), one fresh process per sequence, each op's serialised result against \
                 its result alone in a fresh process (and a second fresh process); (b) every pair (thorough: also triples) of ops {prove A, \
                 prove B, verify valid, verify invalid, clone+drop params, build other capacity} on threads sharing one parameter object (plus a 160-member batch with two different defects racing a short verification, one preemption), \
